@@ -11,8 +11,8 @@ from mc.engine import Harness, Result, V
 from mc.world import reset_globals
 
 PRE = [['set', 'v', 5], ['mut_l'], ['pattr', 'v', 'bounds', [0, 50]], ['attach'], ['attach_set', 7], ['watch'], ['watch2prec'], ['extra'],
-       ['update', 3, 4], ['selobj'], ['touch']]
-POST = [['set', 'v', 6], ['update', 7, 8], ['mut_l'], ['set_l'], ['pattr', 'v', 'bounds', [0, 99]], ['leaf', 9], ['oselobj'], ['extra'], ['selobj'], ['set', 'v', 60]]
+       ['update', 3, 4], ['selobj'], ['touch'], ['watch_unwatch']]
+POST = [['set', 'v', 6], ['update', 7, 8], ['mut_l'], ['set_l'], ['pattr', 'v', 'bounds', [0, 99]], ['leaf', 9], ['oselobj'], ['extra'], ['selobj'], ['set', 'v', 60], ['attach']]
 
 
 def mechs(tier):
@@ -49,6 +49,12 @@ class C17(Harness):
                 for m in mechs(tier):
                     for post in (posts if cls == 'Top' else posts[:len(POST) * 2 + 1]):
                         out.append({'cls': cls, 'pre': pre, 'mech': m, 'post': post})
+        # a dependency on a parameter of a sub-object that is not attached at copy time (never attached, or attached and detached again)
+        for pre in ([], [['attach'], ['detach']], [['watch_unwatch']]):
+            for m in mechs(tier):
+                for side in ('orig', 'copy'):
+                    out.append({'cls': 'TopSub', 'pre': pre, 'mech': m, 'post': [[side, 'attach'], [side, 'leaf', 9]]})
+                    out.append({'cls': 'TopSub', 'pre': pre, 'mech': m, 'post': [[side, 'set', 'v', 6]]})
         # pinned: dependency on a parameter of an attached sub-object
         for m in mechs(tier):
             out.append({'cls': 'TopSub', 'pre': [['attach']], 'mech': m, 'post': [['copy', 'leaf', 9]], 'pinned': 'C17-subobject-dependency'})
@@ -69,6 +75,10 @@ class C17(Harness):
             setattr(o.param[op[1]], op[2], tuple(op[3]))
         elif k == 'attach':
             o.sub = C.Leaf(x=3)
+        elif k == 'detach':
+            o.sub = None
+        elif k == 'watch_unwatch':
+            o.param.unwatch(o.param.watch(o.user_cb2, ['w']))
         elif k == 'attach_set':
             o.sub = C.Leaf(x=3)
             o.sub.x = op[1]
@@ -176,6 +186,9 @@ class C17(Harness):
                 self.apply(C, S, op)
             except ValueError as e:
                 exc = e
+            except Exception as e:
+                vs.append(V('post-op-raises', '%s: %r on %s raised %r' % (ctx, op, side, e), op=op[0], exc=type(e).__name__, **key))
+                break
             # the bounds in force on this side decide acceptance
             if op[0] == 'set' and op[1] == 'v':
                 hi = S.param.v.bounds[1]
@@ -200,7 +213,11 @@ class C17(Harness):
                 exp = 1
             if op[0] == 'leaf' and case['cls'] == 'TopSub' and S.sub is not None:
                 exp = 1
-            if len(dep) != exp:
+            if op[0] == 'attach' and case['cls'] == 'TopSub':
+                if len(dep) > 1:
+                    vs.append(V('dependent-method-count', '%s: attaching a sub-object invoked dependent methods %r' % (ctx, dep), op=op[0], got=len(dep), **key))
+                    break
+            elif len(dep) != exp:
                 vs.append(V('dependent-method-count', '%s: %r on %s invoked dependent methods %r, expected exactly %d call(s)' % (ctx, op, side, dep, exp),
                             op=op[0], got=len(dep), **key))
                 break
